@@ -967,6 +967,11 @@ func (s *S3Proxy) GetObjectAttributes(ctx context.Context, input *s3.GetObjectAt
 		input.VersionId = nil
 	}
 
+	if len(input.ObjectAttributes) == 0 {
+		// the attributes are filtered by the frontend: request all of them
+		input.ObjectAttributes = types.ObjectAttributes("").Values()
+	}
+
 	out, err := s.client.GetObjectAttributes(ctx, input)
 	if err != nil {
 		// out is nil on error
@@ -978,12 +983,12 @@ func (s *S3Proxy) GetObjectAttributes(ctx context.Context, input *s3.GetObjectAt
 	if objParts != nil {
 		if objParts.PartNumberMarker != nil {
 			partNumberMarker, err := strconv.Atoi(*objParts.PartNumberMarker)
-			if err != nil {
+			if err == nil {
 				parts.PartNumberMarker = partNumberMarker
 			}
 			if objParts.NextPartNumberMarker != nil {
 				nextPartNumberMarker, err := strconv.Atoi(*objParts.NextPartNumberMarker)
-				if err != nil {
+				if err == nil {
 					parts.NextPartNumberMarker = nextPartNumberMarker
 				}
 			}
